@@ -229,6 +229,8 @@ FLAVOURS = {
     "oid-ci": dict(oip=(False, False), cs=(False, False)),
     "path-ci": dict(oip=(True, True), cs=(False, False)),
     "oid-filt": dict(oip=(False, False), filt=True),
+    "oid-h2": dict(oip=(False, False), hash2=True),              # the remote provider hashes with its own function
+    "path-h2": dict(oip=(True, True), hash2=True),
     "oid-cics": dict(oip=(False, False), cs=(False, True)),       # case-insensitive local account, case-sensitive remote one
     "oid-csci": dict(oip=(False, False), cs=(True, False)),
 }
@@ -240,9 +242,16 @@ def hash_func(b):
     return b.derive("h")           # content token -> hash token (injective)
 
 
-def mk_provider(oid_is_path, case_sensitive=True, filter_events=False):
+def hash_func2(b):
+    """a second provider's own hash function (real provider pairs never share one)"""
+    if isinstance(b, (bytes, bytearray)):
+        return b"g" + bytes(b)[::-1]
+    return b.derive("g")
+
+
+def mk_provider(oid_is_path, case_sensitive=True, filter_events=False, hfunc=None):
     p = MockProvider(oid_is_path=oid_is_path, case_sensitive=case_sensitive, filter_events=filter_events,
-                     hash_func=hash_func)
+                     hash_func=hfunc or hash_func)
     p.connect({"key": "val"})
     return p
 
@@ -302,7 +311,7 @@ class Lab:
         oip = f["oip"]
         cs_ = f.get("cs", (True, True))
         if providers is None:
-            providers = (mk_provider(oip[0], cs_[0], f.get("filt", False)), mk_provider(oip[1], cs_[1], f.get("filt", False)))
+            providers = (mk_provider(oip[0], cs_[0], f.get("filt", False)), mk_provider(oip[1], cs_[1], f.get("filt", False), hash_func2 if f.get("hash2") else None))
         self.p = providers
         self.roots = roots
         self.storage = storage if storage is not None else DictStorage()
@@ -540,6 +549,13 @@ def do_op(lab, side, op, content):
                 return ("noop", op)
             p.rename(i.oid, root + dst)
             return ("rename" if k_ == "mv" else "rendir", src, dst)
+        if op.startswith("mkdir:"):
+            n = op.split(":")[1]
+            par = n.rsplit("/", 1)[0]
+            if info(n) or (par and not info(par)):
+                return ("noop", op)
+            p.mkdir(root + n)
+            return ("mkdir", n)
         if op.startswith("rmdir:"):
             n = op.split(":")[1]
             i = info(n)
